@@ -156,7 +156,8 @@ def batch_files(max_n, lo, hi, seed):
     shapes = [s for s in R.shapes(max_n) if in_fragment_shape(s)]
     for shape in shapes[lo:hi]:
         allc = fragment_cards(shape)
-        for cards in (allc if len(allc) <= 16 else rnd.sample(allc, 16)):
+        from .common import zero_group_cards
+        for cards in (allc if len(allc) <= 16 else rnd.sample(allc, 16)) + [c for c in zero_group_cards(shape) if all(x == (1, 1) or len(cs) > 1 for x, (p, cs) in zip(c, R.relations_of(shape)))]:
             n = R.n_features(shape)
             names = None
             if rnd.random() < 0.5:
@@ -231,6 +232,7 @@ def batches(tier, seed):
     st = nt // 12 + 1
     b += [('batch_trees', [lo, lo + st, full]) for lo in range(0, nt, st)]
     b.append(('batch_dups', []))
+    b += [('batch_impl_pairs', [lo, lo + 324]) for lo in range(0, 1296, 324)]
     return b
 
 
@@ -257,6 +259,10 @@ def replay_dups(k):
         return ['%s | constraints %r' % (b[:400], rt.DUP_CTC_SETS[k]) for b in file_roundtrip(m)]
     except Exception as exc:
         return ['round trip raises %s: %s (constraints %r)' % (type(exc).__name__, exc, rt.DUP_CTC_SETS[k])]
+
+
+def batch_impl_pairs(lo, hi):
+    return rt.impl_pairs_batch(__name__, lo, hi, 'constraint-roundtrip')
 
 
 def batch_dups():
